@@ -231,6 +231,43 @@ fn bytes_mode(inputs: &[Vec<u8>], seed: u64, fuzz: usize, si: usize, sn: usize, 
             }
         }
     }
+    // the same inside LONG numbers (readers that take several digits at a time decide per block, not per byte):
+    // the bytes next to '0'..'9' and a few others at every position of numbers of 7..20 characters, and every byte
+    // value at the first, second, middle and last two positions of numbers of 8, 9, 16, 17 and 20 characters
+    {
+        let near: [u8; 16] = [0x2f, 0x3a, 0x3b, 0x3c, 0x3d, 0x3e, 0x3f, 0x40, 0x20, 0x00, 0x80, 0xb2, 0xff, b'\n', b'-', b'+'];
+        let digits = b"12345678901234567890";
+        let mut push = |lead: u8, sign: &[u8], len: usize, at: usize, b: u8, extra: &mut Vec<(String, Vec<u8>, usize)>| {
+            let mut v = vec![lead];
+            v.extend_from_slice(sign);
+            v.extend_from_slice(&digits[..len]);
+            v[1 + sign.len() + at] = b;
+            v.extend_from_slice(b"\r\n");
+            if lead == b'$' {
+                v.extend_from_slice(&[b'x'; 16]);
+                v.extend_from_slice(b"\r\n");
+            }
+            extra.push(("anybyte-long".into(), v, 0));
+        };
+        for lead in [b':', b'$', b'*'] {
+            for sign in [&b""[..], &b"-"[..]] {
+                for len in [7usize, 8, 9, 10, 15, 16, 17, 18, 19, 20] {
+                    for at in 0..len {
+                        for b in near {
+                            push(lead, sign, len, at, b, &mut extra);
+                        }
+                    }
+                }
+            }
+            for len in [8usize, 9, 16, 17, 20] {
+                for at in [0, 1, len / 2, len - 2, len - 1] {
+                    for b in 0..=255u8 {
+                        push(lead, b"", len, at, b, &mut extra);
+                    }
+                }
+            }
+        }
+    }
     // the null bulk header and its neighbours, alone and followed by another frame
     for h in ["$-1\r\n", "$-01\r\n", "$-001\r\n", "$-0\r\n\r\n", "$-0\r\n", "$-00\r\n\r\n", "$-1x\r\n", "$--1\r\n", "$-10\r\n", "$-\r\n\r\n",
               "$-1\r\r\n", "$+1\r\na\r\n", "$-+1\r\n", "$- 1\r\n", "$-1\n\r\n", "$-2\r\n"] {
